@@ -634,7 +634,7 @@ func c01CommitBeforeCommitment(c *Ctx) {
 			if s.Callee == nil || s.Callee.Name() != "commitment" || s.Callee.Signature.Recv() == nil || recvName(s.Callee.Signature.Recv().Type()) != "stateObject" {
 				continue
 			}
-			if rootOf(fn).Name() != "commit" && !strings.HasPrefix(rootOf(fn).Name(), "zzVerifFixture") {
+			if rootOf(fn).Name() != "commit" && !strings.HasPrefix(rootOf(fn).Name(), "zzVerifFixture") && !p.calledOnlyFrom(fn, "commit", 0) {
 				continue // read-only uses (e.g. proofs) work on committed objects
 			}
 			n++
